@@ -99,6 +99,18 @@ func run(cfg lib.Cfg) error {
 		}
 		sc := &ts.Scenario{Name: fmt.Sprintf("iso-%d", i), Seed: r.U64() % 1_000_000, Head: r.Range(4, 8), SnapEvery: true,
 			Gen: ts.GenOpts{MaxTxs: 2, MaxLogs: 3, Traces: true, Decoys: true, EmptyProb: 10}, Srcs: srcs, IGs: igs}
+		if r.Intn(4) == 0 {
+			// the tasks of a source share ONE real jrpc2.Client: cached header/block
+			// segments are the same objects for all of them and logs fetched for
+			// different filters are merged into the same cached blocks
+			sc.Real = true
+			kind += "-shared-client"
+			for k := range sc.IGs {
+				if sc.IGs[k].Shape == "trace" {
+					sc.IGs[k].Shape = "tx"
+				}
+			}
+		}
 		head := map[string]int{"main": sc.Head, "alt": sc.Head}
 		for k := r.Range(60, 140); k > 0; k-- {
 			switch x := r.Intn(40); {
